@@ -91,11 +91,17 @@ void *vf_mmap(void *addr, size_t len, int prot, int flags, int fd, off_t off) {
     os_map_base = p; os_map_end = 0;
   }
   __CPROVER_assert(end <= OS_MAXOBJ, "model bound: file mapping fits the model object");
+  /* pages that hold file bytes are backed; the rest of the last such page
+   * reads as zero; pages of the mapping that lie wholly beyond the end of the
+   * file are not backed (touching them is SIGBUS): marked like unmapped memory */
+  unsigned backed = ((os_file_size < (unsigned)len ? os_file_size : (unsigned)len) + OS_PAGE - 1) / OS_PAGE * OS_PAGE;
   for (unsigned i = 0; i < OS_MAXOBJ; i++) {
     if (i < os_file_size && i < len) p[i] = os_file[i];
-    else if (i < end) p[i] = 0;             /* rest of the last page reads as zero */
+    else if (i < backed) p[i] = 0;
+    else if (i < end) p[i] = 0x55;
   }
-  if (end > os_map_end) os_map_end = end;
+  if ((flags & MAP_FIXED) && end > backed && backed < os_map_end) os_map_end = backed > 0 ? backed : 0;
+  if (!(flags & MAP_FIXED)) os_map_end = backed;
   return p;
 }
 
